@@ -97,9 +97,14 @@ theorem footprint_indep_source_values (req : SolveReq ℝ) (q' : ℕ → ℕ →
   have hs : srcSpectrum RC { req with q := q' } (geom RC { req with q := q' })
       = srcSpectrum RC req (geom RC req) := by
     simp only [srcSpectrum, hfp, if_true, geom]
+  have he : solveErr { req with q := q' } = solveErr req := rfl
   unfold solve
-  simp only [hs]
-  rfl
+  rw [he]
+  cases solveErr req with
+  | some e => rfl
+  | none =>
+    simp only [solveOk, hs]
+    rfl
 
 /-! non-vacuity: the shooting-denominator hypothesis is satisfiable (one layer, `T = 0`) -/
 example : ∃ (P : Profiles ℝ) (z : ℕ → ℝ),
